@@ -480,38 +480,40 @@ def _job(job):
 
 
 TIERS = {
-    # base seeds, extra seeds from VERIF_SEED, cli seeds, cpu budget per generation (s), wall deadline (s)
-    'quick': (BASE_SEEDS[:4], 1, [1], 4, 48),
-    'thorough': (BASE_SEEDS, 20, [1, 2, 3], 25, 780),
+    # base seeds, extra seeds from VERIF_SEED, cli seeds, cli languages per combination,
+    # cpu budget per generation (s), wall deadline (s)
+    'quick': (BASE_SEEDS[:3], 1, [1], 1, 4, 45),
+    'thorough': (BASE_SEEDS, 20, [1, 2, 3], 4, 25, 780),
 }
 
 
 def plan(tier, seed):
-    """(jobs, description).  The base list is fixed; VERIF_SEED adds seeds, never replaces any."""
+    """(jobs, description, deadline).  The base list is fixed; VERIF_SEED adds seeds, never replaces any."""
     rnd = random.Random(seed)
     keys = [combo_key(c) for c in COMBOS]
-    base, extra, cli_seeds, budget, deadline = TIERS['quick' if tier == 'quick' else 'thorough']
+    base, extra, cli_seeds, cli_langs, budget, deadline = TIERS['quick' if tier == 'quick' else 'thorough']
     seeds = list(base)
     while len(seeds) < len(base) + extra:
         s = rnd.randrange(1000, 10 ** 6)
         if s not in seeds:
             seeds.append(s)
     jobs = []
-    # the command-line runs and the all-switches-on runs first: they are the ones a deadline must not cut
+    # the command line once per combination (quick: the language rotates with the combination)
     for s in cli_seeds:
-        for lang in LANGS:
-            for k in keys:
-                jobs.append((lang, s, k, True))
+        for n, k in enumerate(keys):
+            for j in range(cli_langs):
+                jobs.append((LANGS[(n + j) % 4], s, k, True))
+    # most switches on first: these are the runs a deadline must not cut
     for s in seeds:
         for k in sorted(keys, key=lambda x: -x.count('1')):
             for lang in LANGS:
                 jobs.append((lang, s, k, False))
     jobs = [(i,) + j + (budget,) for i, j in enumerate(jobs)]
     desc = ('%d generator seeds (fixed %d..%d + %d from VERIF_SEED) x 4 languages x 16 switch combinations with the '
-            'configuration set directly, plus seeds %s x 4 languages x 16 combinations through a re-import of '
+            'configuration set directly, plus seeds %s x 16 combinations x %d language(s) through a re-import of '
             'src.args with the command-line switches (= %d generations; each abandoned after %d s CPU, the run stops '
             'scheduling after %d s wall)'
-            % (len(seeds), base[0], base[-1], extra, cli_seeds, len(jobs), budget, deadline))
+            % (len(seeds), base[0], base[-1], extra, cli_seeds, cli_langs, len(jobs), budget, deadline))
     return jobs, desc, deadline
 
 
